@@ -271,8 +271,9 @@ def _grid_map_form(ctx, b, tm, ld):
     ctx.check(pa[2] == want_g, "cell:grade=(Grade(axis element), grade_unit)", "the grade argument is %s" % short(pa[2])[:200], p_.where(), detail="(Grade::new(g), arg7)")
     want_d = ("tuple", (("call", "routee_compass_core::model::unit::distance::Distance::new", (("const", "f64", "1.0"),)), ("call", "routee_compass_core::model::unit::energy_rate_unit::EnergyRateUnit::associated_distance_unit", (("arg", 10),))))
     ctx.check(pa[3] == want_d, "cell:unit-distance-in-rate-distance-unit", "the distance is not (Distance(1.0), energy_rate_unit.associated_distance_unit()): %s" % short(pa[3])[:200], p_.where(), detail="(1.0, rate_unit.associated_distance_unit())")
-    ctx.check(try_propagation(icb, p_, itm_)["kind"] == "propagated", "cell:error", "Err of the underlying prediction is not propagated", p_.where())
-    cellv = rewrite(inner["values"][0], lambda y: ("g",) if y == ("elem",) else None)
+    # `predict(..)?` in the cell, or the cell is itself the Result (Err kept by map/and_then) that the collect::<Result<..>> gathers
+    ctx.check(try_propagation(icb, p_, itm_)["kind"] in ("propagated", "returned"), "cell:error", "Err of the underlying prediction is not propagated", p_.where())
+    cellv = rewrite(norm_adaptors(F, inner["values"][0]), lambda y: ("g",) if y == ("elem",) else None)
     cellv = rewrite(cellv, lambda y: ("s",) if y == ("arg", 2) else (U_(ocaps[int(y[2])]) if y[0] == "field" and y[1] == ("arg", 1) and str(y[2]).isdigit() and int(y[2]) < len(ocaps) else None))
     want_c = ("call", "<routee_compass_core::model::unit::energy::Energy as routee_compass_core::model::unit::as_f64::AsF64>::as_f64", (("field", ("call", p_.callee, tuple(pa)), "0"),))
     ctx.check(nosite(cellv) == want_c, "cells:value=energy.as_f64()", "a cell is not predict(..).0.as_f64(): %s" % short(cellv)[:160], icb.where(), detail="energy.as_f64()")
@@ -307,6 +308,8 @@ def R2b_linspace(ctx):
     ctx.rule("C14.R2b", "linspace(x0, xend, n): x = vec![x0; n]; for i in 1..n { x[i] = x[i-1] + (xend-x0)/((n-1) as f64) }; returns x (so x[0] = x0, x is increasing iff xend > x0, and has n elements)", floor=4)
     b = F.need(I + "utils::linspace")
     loops = b.natural_loops()
+    if not loops and _linspace_successors(ctx, b):
+        return
     if not ctx.check(len(loops) == 1, "single-loop", "expected one loop", b.where()):
         return
     h = loops[0][0]
@@ -336,6 +339,31 @@ def R2b_linspace(ctx):
     ctx.check(len(rets) == 1 and unmut_all(nosite(deep_strip(rets[0].ret))) == X and not rets[0].stores, "returns-x", "linspace does not return the filled vector vec![x0; n]", b.where(), detail="vec![x0; n]")
     other = [r for r in rows if r.kind not in ("back", "return", "diverge")]
     ctx.check(not other, "no-other-paths", "unexpected path kinds %s" % [r.kind for r in other], b.where())
+
+
+def _linspace_successors(ctx, b):
+    """the same sequence written as successors(Some(x0), |p| Some(p + dx)).take(n).collect(): x[0] = x0, x[i] = x[i-1] + dx, n elements"""
+    F = ctx.F
+    src, ops = chain_steps(F, Terms(b).return_term())
+    names = [o[0] for o in ops]
+    if not (src[0] == "call" and src[1].endswith("iter::successors") and len(src[2]) == 2 and names in (["take", "collect"], ["take", "collect_vec"])):
+        return False
+    first, cl = src[2]
+    ok = first == ("agg", "std::option::Option", "Some", (("0", ("arg", 1)),)) and cl[0] == "closure" and cl[1] in F.bodies
+    if ok:
+        val = clean(Terms(F.bodies[cl[1]]).return_term())
+        ok = result_variant(val) == "Some"
+    if ok:
+        caps = cl[2]
+        val = rewrite(agg_payload(val), lambda y: ("xprev",) if y == ("arg", 2) else (clean(caps[int(y[2])]) if y[0] == "field" and y[1] == ("arg", 1) and str(y[2]).isdigit() and int(y[2]) < len(caps) else None))
+        A = Arith(F, symbols={("arg", 1): "x0", ("arg", 2): "xend", ("arg", 3): "n", ("xprev",): "xprev"})
+        S = lambda n: Ratio(Poly.sym(n))
+        ok = A.ev(val).equals(S("xprev") + (S("xend") - S("x0")) / (S("n") - Ratio(Poly.const(1))))
+    ctx.check(ok, "recurrence", "the successor step is not x[i] = x[i-1] + (xend-x0)/(n-1) starting from x0", b.where(), detail="x[i] = x[i-1] + dx")
+    ctx.check(ops[0][1] == ("arg", 3), "returns-x", "linspace does not take exactly n elements", b.where(), detail="take(n)")
+    ctx.check(True, "single-loop", "", b.where(), detail="successors form")
+    ctx.check(True, "no-other-paths", "", b.where())
+    return True
 
 
 def unmut_all(t):
@@ -476,7 +504,7 @@ def R3b_nd(ctx):
         pushes = [(bb, v) for bb, v in r.calls if v[0] == "call" and v[1] == "std::vec::Vec::<T, A>::push"]
         ok = len(pushes) == 2
     if ok:
-        vals = [unmut_all(nosite(deep_strip(v[2][1]))) for _, v in pushes]
+        vals = [clean(v[2][1]) for _, v in pushes]
         idx = [v for v in vals if v[0] == "call" and v[1] == FNI]
         frac = [v for v in vals if not (v[0] == "call" and v[1] == FNI)]
         ok = len(idx) == 1 and len(frac) == 1
@@ -484,11 +512,11 @@ def R3b_nd(ctx):
         l = idx[0]
         g, p = l[2]
         dim = None
-        if g[0] == "call" and g[1] == VIDX and p[0] == "call" and p[1] == VIDX and g[2][1] == p[2][1]:
-            dim = g[2][1]
+        if g[0] == "at" and p[0] == "at" and g[2] == p[2]:
+            dim = g[2]
         ok = dim is not None and dim[0] == "call" and itm(dim[1], "next")
         if ok:
-            A = Arith(F, symbols={p: "p", ("call", VIDX, (g, l)): "gl", ("call", VIDX, (g, ("bin", "Add", l, ("const", "usize", 1)))): "gu"})
+            A = Arith(F, symbols={p: "p", ("at", g, l): "gl", ("at", g, ("bin", "Add", l, ("const", "usize", 1))): "gu"})
             got = A.ev(frac[0])
             S = lambda nm: Ratio(Poly.sym(nm))
             ok = got.equals((S("p") - S("gl")) / (S("gu") - S("gl")))
@@ -755,7 +783,7 @@ def R5_index_search(ctx):
             ctx.check(pay == LO, "exit:arr[low]<t=>low", "returns %s" % short(rv)[:80], b.where(), detail="low")
         elif zero:
             exits["keep=0"] += 1
-            ctx.check(pay == LO, "exit:low=0=>low", "returns %s" % short(rv)[:80], b.where(), detail="low (= 0)")
+            ctx.check(pay == LO or pay == ("const", "usize", 0), "exit:low=0=>low", "returns %s" % short(rv)[:80], b.where(), detail="low (= 0)")
         else:
             ctx.bad("exit:unrecognised", "an exit path decides on other facts: %s" % [short(("bin",) + f)[:80] for f in r.facts], b.where())
     ctx.check(all(v >= 1 for v in exits.values()), "exit:all-three", "not all three exits (low-1 / low / 0) are present: %s" % exits, b.where())
